@@ -76,7 +76,7 @@ func kernelProgram(full, compact bool) *idl.Program {
 		types = env.Leaves()
 		for _, n := range env.Types1(false) {
 			switch n.Name {
-			case "list_struct", "list_tdstruct", "list_incstruct", "set_enum", "set_string", "map_string_struct", "map_i32_tdcont", "map_enum_inctd", "map_struct_i32", "map_binary_string", "list_union", "map_string_tdenum":
+			case "list_struct", "list_tdstruct", "list_incstruct", "set_enum", "set_string", "map_string_struct", "map_i32_tdcont", "map_enum_inctd", "map_struct_i32", "map_binary_string", "list_union", "map_string_tdenum", "map_tdbinary_i32", "map_tdenum_string", "map_tdstruct_i32", "list_tdbinary", "set_tdbinary", "map_string_tdbinary":
 				types = append(types, n)
 			}
 		}
